@@ -6,6 +6,9 @@ C06.b handler exhaustiveness and signature agreement of the per-instruction stac
 C06.c the model reader reads t_j for exactly the positions restrict_t_domain constrains
 C06.d happens-before map under-approximates the dependency graph
 C06.e position families cover every admissible position
+C06.f integer codes of stack terms are dense; `empty` gets a fresh code
+C06.g order and multiplicity constraints mean what they are documented to mean
+C06.h stack constraints = transition relation of the stack machine (small instance)
 """
 import ast
 
@@ -22,11 +25,11 @@ LEVEL_TEXT = ("Decides the second sentence of C06 structurally: symbols can only
               "structural conditions: the happens-before map used to leave order tuples out of the dependency graph under-approximates "
               "reachability (inductive invariant per update site); every position family of the hard constraints reaches the inclusive "
               "upper bound; existential order constraints start at the later instruction's lower bound and exclude the position when no "
-              "earlier position exists. Soundness of the constraint system over all models is not decided.")
+              "earlier position exists. Bounded, exhaustive on small instances: each order / multiplicity constraint generator means what it is documented to mean on a three-position instance (C06.g), and each per-instruction stack constraint is the stack machine's transition relation on 3-4 slots in both representations of an unused slot (C06.h). Soundness of the whole constraint system over all models and all sizes is not decided.")
 EXPLANATION = ("Declarations are a snapshot taken by BlockOptimizer before the lazy constraint generators run, so a creator "
                "that is used but not pre-created in functions_declared yields an undeclared symbol in the SMT-LIB text.")
-NOT_DECIDED = ("that every model decodes to a realizing sequence (a semantic statement about generated formulas); index "
-               "ranges of x/u/t terms against b0/bs (run-time values)")
+NOT_DECIDED = ("that every model decodes to a realizing sequence for instances larger than those of C06.g/h, and the interplay of all "
+               "constraint families (initial / final stack, bounds from dependencies, soft constraints)")
 ASSUMPTIONS = ["initial_idx = 0 (the only value the tool passes)"]
 
 ENC_PKG = "smt_encoding.complete_encoding"
